@@ -215,6 +215,14 @@ pub trait World: 'static {
     fn required_probes(_prop: &str) -> &'static [&'static str] {
         &[]
     }
+    /// Fault sweep (level fault_enumeration): a finite, completely enumerated list of cases
+    /// (every fault site x size x callback index), executed like any other case.
+    fn sweep_len() -> u64 {
+        0
+    }
+    fn sweep_case(_i: u64) -> Option<Self::Case> {
+        None
+    }
 }
 
 /// Sub-lists of a plan for delta debugging: drop chunks of decreasing size.
